@@ -74,24 +74,27 @@ theorem C06_tree_roundtrip_partial (o : ExportOpts) (m : VMap) (h : MapOK1 m) (h
   rw [assignIds_preserve _ (idsOK_rawRT o m hid), fix_rawRT_eq_project o m h]
 
 /-- **Fixed point.** Exporting the re-parsed map again (without incrementing the map version a
-second time) yields the same tree as the first export: export -> parse -> export changes nothing.
-(`logicalPos ≠ []`: the constructor of the implementation never leaves it empty. `EntNoDisp`: the
-second-export equation is proved for faces without displacement data only; with displacement it is
-checked by the correspondence / search on every run.) -/
+second time) yields the same tree as the first export: export -> parse -> export changes nothing —
+displacement arrays, multiblend and Strata data included.
+(`logicalPos ≠ []`: the constructor of the implementation never leaves it empty.) -/
 theorem C06_fixed_point_partial (o : ExportOpts) (m : VMap) (h : MapOK1 m) (hid : IdsOK m)
-    (hl : ∀ e ∈ m.ents, e.logicalPos ≠ []) (hnd : EntNoDisp m.spawn ∧ ∀ e ∈ m.ents, EntNoDisp e) :
+    (hl : ∀ e ∈ m.ents, e.logicalPos ≠ []) :
     (parseTree true (exportTree o m)).map (exportTree { o with incVersion := false })
       = .ok (exportTree o m) := by
   rw [C06_tree_roundtrip_partial o m h hid]
   simp only [Except.map]
-  rw [exportTree_project o m h hl hnd]
+  rw [exportTree_project o m h hl]
 
 /-- The second generation is stable for ever: the projected map is its own projection as far as
 the exported tree is concerned. -/
 theorem C06_project_export (o : ExportOpts) (m : VMap) (h : MapOK1 m)
-    (hl : ∀ e ∈ m.ents, e.logicalPos ≠ []) (hnd : EntNoDisp m.spawn ∧ ∀ e ∈ m.ents, EntNoDisp e) :
+    (hl : ∀ e ∈ m.ents, e.logicalPos ≠ []) :
     exportTree { o with incVersion := false } (project o m) = exportTree o m :=
-  exportTree_project o m h hl hnd
+  exportTree_project o m h hl
+
+/-- a displacement written twice: the projection changes nothing the writer looks at -/
+theorem C06_displacement_fixed (mb : Bool) (d : Disp) : exportDisp mb (projDisp mb d) = exportDisp mb d :=
+  exportDisp_projDisp mb d
 
 /-- **Renumbering (`preserve_ids=False`).** Whatever ids the file contains (repeated, zero,
 negative, missing), after a parse without `preserve_ids` the ids of every kind — visgroups, groups,
@@ -247,7 +250,6 @@ example : (parseTree true (exportTree { minimal := true, multiblend := false, in
       (exportTree { minimal := true, multiblend := false, incVersion := false })
     = .ok (exportTree { minimal := true, multiblend := false, incVersion := true } exMap) :=
   C06_fixed_point_partial { minimal := true, multiblend := false, incVersion := true } exMap exMap_ok exMap_ids (by decide)
-    ⟨by decide, by decide⟩
 
 theorem exMapD_ok : MapOK1 exMapD :=
   { exMap_ok with
@@ -272,6 +274,12 @@ theorem exMapD_ids : IdsOK exMapD :=
 example : parseTree true (exportTree { minimal := false, multiblend := true, incVersion := false } exMapD)
     = .ok (project { minimal := false, multiblend := true, incVersion := false } exMapD) :=
   C06_tree_roundtrip_partial _ _ exMapD_ok exMapD_ids
+
+example : (parseTree true (exportTree { minimal := false, multiblend := true, incVersion := false } exMapD)).map
+      (exportTree { minimal := false, multiblend := true, incVersion := false })
+    = .ok (exportTree { minimal := false, multiblend := true, incVersion := false } exMapD) :=
+  C06_fixed_point_partial { minimal := false, multiblend := true, incVersion := false } exMapD exMapD_ok exMapD_ids
+    (by decide)
 
 example : IdsInjective (assignIds false { exMap with ents := [exEnt, exEnt, exEnt] }) :=
   assignIds_injective _
